@@ -153,6 +153,15 @@ def corpus():
     yield {"op": "iinsert", "tier": ti2, "entry": [1.0, 5.5, "n"], "mode": "merge", "grid": True}
     yield {"op": "iinsert", "tier": ti2, "entry": [1.0, 5.5, "n"], "mode": "replace", "grid": True}
     yield {"op": "iinsert", "tier": ti2, "entry": [4.0, 5.0, "n"], "mode": "error", "grid": True}
+    # A20 (fixed): two same-labelled entries closer than the tolerance of Point/Interval equality
+    tc = {"k": "P", "name": "P", "es": [[4.999999999999999, "n"], [5.0, "n"]], "lo": 0.0, "hi": 10.0}
+    yield {"op": "pdelete", "tier": tc, "entry": [5.0, "n"], "grid": False}
+    tc2 = {"k": "P", "name": "P", "es": [[8.3, ""], [8.300000000000004, ""]], "lo": 0.0, "hi": 10.0}
+    for mode in ("merge", "replace"):
+        yield {"op": "pinsert", "tier": tc2, "entry": [8.300000000000004, " p "], "mode": mode, "grid": False}
+    tc3 = {"k": "I", "name": "I", "es": [[1.0, 2.0, "x"], [2.0, 2.000000000000001, "x"], [2.000000000000001, 2.0000000000000018, "x"]], "lo": 0.0, "hi": 10.0}
+    yield {"op": "idelete", "tier": tc3, "entry": [2.000000000000001, 2.0000000000000018, "x"], "grid": False}
+    yield {"op": "iinsert", "tier": tc3, "entry": [2.0000000000000013, 3.0, "y"], "mode": "replace", "grid": False}
 
 
 def gen(rnd, tier):
